@@ -26,6 +26,7 @@ impl ChaikinMoneyFlow {
 		!self.valid() ==> r is Err,
 		r is Ok ==> r->Ok_0.inv() && r->Ok_0.cfg == self,
 		r is Ok ==> r->Ok_0.window.view() =~= konst(self.size as nat, candle.volume_s()) && r->Ok_0.cross_over.up.last_delta@ == 0real,
+		r is Ok && ordered_candle(candle) ==> r->Ok_0.dominated(),
 //@replace Ok(Self::Instance { ==> Ok(ChaikinMoneyFlowInstance {
 //@replace ADI::new(cfg.size, candle)? ==> ADI::new(cfg.size, as_dyn(candle))?
 //@hint before Ok(Self::Instance
@@ -35,10 +36,53 @@ impl ChaikinMoneyFlow {
 		assert(v * n == n * v) by(nonlinear_arith);
 	}
 //@hint result
-	proof { if r is Ok { lemma_cloned_konst(r->Ok_0.window.view(), self.size as nat, candle.volume_s()); } }
+	proof {
+		if r is Ok {
+			lemma_cloned_konst(r->Ok_0.window.view(), self.size as nat, candle.volume_s());
+			if ordered_candle(candle) {
+				lemma_clv_bounded(candle);
+				assert(clv_spec(as_dyn_spec(candle)) == clv_spec(candle));
+			}
+		}
+	}
 //@end
 }
+// ---- C12: |Σ CLV*volume| <= Σ volume while every candle is ordered (low <= close <= high) and has a non-negative volume
+pub open spec fn ordered_candle<T: OHLCV>(c: &T) -> bool { c.low_s()@ <= c.close_s()@ <= c.high_s()@ && c.volume_s()@ >= 0real }
+pub open spec fn pointwise_dominated(a: Seq<R>, b: Seq<R>) -> bool {
+	a.len() == b.len() && forall|i: int| 0 <= i < a.len() ==> rabs((#[trigger] a[i])@) <= b[i]@
+}
+pub proof fn lemma_sum_dominated(a: Seq<R>, b: Seq<R>)
+	requires pointwise_dominated(a, b)
+	ensures rabs(sum(a)) <= sum(b)
+	decreases a.len()
+{
+	if a.len() > 0 {
+		assert(pointwise_dominated(a.drop_last(), b.drop_last())) by {
+			assert forall|i: int| 0 <= i < a.drop_last().len() implies rabs((#[trigger] a.drop_last()[i])@) <= b.drop_last()[i]@ by { assert(a.drop_last()[i] == a[i]); }
+		}
+		lemma_sum_dominated(a.drop_last(), b.drop_last());
+		assert(rabs(a.last()@) <= b.last()@) by { assert(a.last() == a[a.len() - 1]); }
+	}
+}
+pub proof fn lemma_clv_bounded<T: OHLCV>(c: &T)
+	requires ordered_candle(c)
+	ensures rabs(clv_spec(c) * c.volume_s()@) <= c.volume_s()@
+{
+	let (h, l, cl, v) = (c.high_s()@, c.low_s()@, c.close_s()@, c.volume_s()@);
+	if h != l {
+		let d = h - l;
+		let num = (cl - l) - (h - cl);
+		assert(-1real <= num / d && num / d <= 1real) by(nonlinear_arith) requires d > 0real, -d <= num, num <= d;
+		let q = num / d;
+		assert(-v <= q * v && q * v <= v) by(nonlinear_arith) requires -1real <= q <= 1real, v >= 0real;
+	} else {
+		assert(0real * v == 0real) by(nonlinear_arith);
+	}
+}
 impl ChaikinMoneyFlowInstance {
+	// every CLV*volume term kept by the ADI is dominated by the volume kept at the same position
+	pub open spec fn dominated(&self) -> bool { pointwise_dominated(self.adi.window.view(), self.window.view()) }
 	pub open spec fn inv(&self) -> bool {
 		&&& self.adi.inv() && self.adi.window.cap() >= 1 && self.window.wf() && self.window.cap() >= 1
 		&&& self.vol_sum@ == sum(self.window.view()) && self.cross_over.inv()
@@ -49,17 +93,34 @@ impl ChaikinMoneyFlowInstance {
 		r.length == (1u8, 1u8),
 		// documented: Σ CLV*volume / Σ volume over the last `size` candles (wherever Σ volume != 0)
 		final(self).window.view() == old(self).window.view().drop_first().push(candle.volume_s()),
-		exists|a: ValueType| #[trigger] ADI::step(&old(self).adi, as_dyn_spec(candle), &final(self).adi, &a)
-			&& (sum(final(self).window.view()) != 0real ==> r.vals()[0]@ == a@ / sum(final(self).window.view())),
+		// (stated over the post-state: the ADI's output is its stored running sum, so no local name is needed as a witness)
+		ADI::step(&old(self).adi, as_dyn_spec(candle), &final(self).adi, &final(self).adi.cmf_sum),
+		sum(final(self).window.view()) != 0real ==> r.vals()[0]@ == final(self).adi.cmf_sum@ / sum(final(self).window.view()),
 		// signal: the value crossing zero
 		exists|z: ValueType| z@ == 0real && #[trigger] Cross::step(&old(self).cross_over, &(r.vals()[0], z), &final(self).cross_over, &r.sigs()[0]),
+		// C12: documented range [-1; 1] on ordered candles with non-negative volume, wherever the total volume is positive
+		old(self).dominated() && ordered_candle(candle) ==> final(self).dominated() && (sum(final(self).window.view()) > 0real ==> -1real <= r.vals()[0]@ <= 1real),
 //@replace self.adi.next(candle) ==> self.adi.next(as_dyn(candle))
 //@hint before self.vol_sum +=
 	proof { lemma_sum_slide(self.window.view(), candle.volume_s()); }
 //@hint result
 	proof {
-		assert(ADI::step(&old(self).adi, as_dyn_spec(candle), &self.adi, &adi));
 		assert(Cross::step(&old(self).cross_over, &(r.vals()[0], mk(0real)), &self.cross_over, &r.sigs()[0]));
+		if old(self).dominated() && ordered_candle(candle) {
+			lemma_clv_bounded(candle);
+			assert(clv_spec(as_dyn_spec(candle)) == clv_spec(candle));
+			let (a, b) = (self.adi.window.view(), self.window.view());
+			let (a0, b0) = (old(self).adi.window.view(), old(self).window.view());
+			assert forall|i: int| 0 <= i < a.len() implies rabs((#[trigger] a[i])@) <= b[i]@ by {
+				if i < a.len() - 1 {
+					assert(a[i] == a.drop_last()[i] && a.drop_last()[i] == a0.drop_first()[i] && a0.drop_first()[i] == a0[i + 1]);
+					assert(b[i] == b0[i + 1]);
+				}
+			}
+			lemma_sum_dominated(a, b);
+			let (n, d) = (self.adi.cmf_sum@, sum(b));
+			if d > 0real { assert(-1real <= n / d <= 1real) by(nonlinear_arith) requires d > 0real, -d <= n <= d; }
+		}
 	}
 //@end
 }
@@ -88,6 +149,7 @@ impl<M: MovingAverageConstructor> StochasticOscillator<M> {
 		r is Ok ==> self.ma.seeded(k_rows_spec(candle.close_s()@, candle.high_s()@, candle.low_s()@), &r->Ok_0.ma1)
 			&& self.signal.seeded(k_rows_spec(candle.close_s()@, candle.high_s()@, candle.low_s()@), &r->Ok_0.ma2),
 		r is Ok && candle.low_s()@ <= candle.close_s()@ <= candle.high_s()@ ==> r->Ok_0.ma1.within(0real, 1real) && r->Ok_0.ma2.within(0real, 1real),
+		r is Ok ==> r->Ok_0.ma1.convex() == self.ma.convex_kind() && r->Ok_0.ma2.convex() == self.signal.convex_kind(),
 //@replace Ok(Self::Instance { ==> Ok(StochasticOscillatorInstance {
 //@hint before Ok(Self::Instance
 	proof {
@@ -126,9 +188,10 @@ impl<M: MovingAverageConstructor> StochasticOscillatorInstance<M> {
 			#[trigger] stoch_step(old(self), candle.close_s()@, candle.high_s(), candle.low_s(), final(self), r.vals()[0], r.vals()[1], hi, lo, k)
 			// C12: %K of an ordered candle lies in [0, 1]; with averaging kinds that cannot overshoot both lines stay in [0, 1]
 			&& (candle.low_s()@ <= candle.close_s()@ <= candle.high_s()@ ==> 0real <= k@ <= 1real)
-			&& (candle.low_s()@ <= candle.close_s()@ <= candle.high_s()@ && <M::Instance as MovingAverage>::convex()
+			&& (candle.low_s()@ <= candle.close_s()@ <= candle.high_s()@ && old(self).ma1.convex() && old(self).ma2.convex()
 				&& old(self).ma1.within(0real, 1real) && old(self).ma2.within(0real, 1real)
-				==> 0real <= r.vals()[0]@ <= 1real && 0real <= r.vals()[1]@ <= 1real && final(self).ma1.within(0real, 1real) && final(self).ma2.within(0real, 1real)),
+				==> 0real <= r.vals()[0]@ <= 1real && 0real <= r.vals()[1]@ <= 1real && final(self).ma1.within(0real, 1real) && final(self).ma2.within(0real, 1real)
+					&& final(self).ma1.convex() && final(self).ma2.convex()),
 		// signals: each line entering the lower zone from below (+) / the upper zone from above (-); %K crossing %D
 		exists|a1: Action, u1: Action, a2: Action, u2: Action|
 			#[trigger] stoch_signals(old(self), r.vals()[0], r.vals()[1], final(self), r.sigs()[0], r.sigs()[1], a1, u1, a2, u2),
@@ -151,7 +214,7 @@ impl<M: MovingAverageConstructor> StochasticOscillatorInstance<M> {
 //@hint result
 	proof {
 		let ok = candle.low_s()@ <= candle.close_s()@ && candle.close_s()@ <= candle.high_s()@;
-		if ok && <M::Instance as MovingAverage>::convex() && old(self).ma1.within(0real, 1real) && old(self).ma2.within(0real, 1real) {
+		if ok && old(self).ma1.convex() && old(self).ma2.convex() && old(self).ma1.within(0real, 1real) && old(self).ma2.within(0real, 1real) {
 			<M::Instance as MovingAverage>::lemma_within_step(&pre_ma1, &k_rows, &self.ma1, &f1, 0real, 1real);
 			<M::Instance as MovingAverage>::lemma_within_step(&pre_ma2, &f1, &self.ma2, &f2, 0real, 1real);
 		}
